@@ -8,10 +8,10 @@ import shutil
 
 from .model import ROOT, Ent, MWorld
 
-FILES_Q = ["f1", "f2", "f3", "g.txt", "h.c", "README"]
-DIRS_Q = ["d1", "d2", "sub"]
-FILES_T = FILES_Q + ["sp ace", "été", ".hidden", "x~", "f1.moved", "f2.THIS"]
-DIRS_T = DIRS_Q + ["d 3"]
+FILES_Q = ["f1", "f2", "f10", "g.txt", "h.c", "README"]
+DIRS_Q = ["d1", "d10", "sub"]  # d1/d10, f1/f10: one name is a string prefix of the other on purpose
+FILES_T = FILES_Q + ["f3", "sp ace", "été", ".hidden", "x~", "f1.moved", "f2.THIS"]
+DIRS_T = DIRS_Q + ["d2", "d 3"]
 
 LINES = [b"a\n", b"b\n", b"c\n", b"d\n", b"e\n", b"x y z\n", b"\n", b"line\n"]
 
@@ -76,7 +76,8 @@ def _new_path(rng, w, names, want_versioned_parent=False):
     """A path where nothing exists; parent must exist on disk as a directory."""
     dirs = [""]
     for i in w.versioned_dirs():
-        dirs.append(w.path(i))
+        if not _under_missing(w, i):
+            dirs.append(w.path(i))
     if not want_versioned_parent:
         dirs += [p for p, v in w.unv.items() if v[0] == "directory"]
     rng.shuffle(dirs)
@@ -179,6 +180,10 @@ def _gen_kind(rng, w, names, k):
         return {"op": k, "path": w.path(i)}
     if k == "delete_disk":
         cands = [w.path(i) for i in _versioned(w, ("file", "symlink"))]
+        # a whole versioned directory vanishing from disk (no unversioned content inside, not kind-changed)
+        cands += [w.path(i) for i in _versioned(w, ("directory",)) if not w.ents[i].kc
+                  and not any(q.startswith(w.path(i) + "/") for q in w.unv)
+                  and not any(w.ents[c].kc for c in w.descendants(i))]
         if not cands:
             return None
         return {"op": "delete_disk", "path": rng.choice(sorted(cands))}
